@@ -25,7 +25,9 @@
 //!       gap exceeds the threshold or the active path must go), no return (a path that becomes active does not
 //!       cross an interface whose documented penalty is still fresh while a never-reported valid cached path
 //!       avoids it - also for paths fetched after a report / re-report), recovery after 20 half-lives, unrelated
-//!       reports change nothing, `matches_path` vs an independent hop-level spec.
+//!       reports change nothing, `matches_path` vs an independent hop-level spec; a report is a duplicate only of an
+//!       earlier report of the same failure (same kind, AS and interface ids) inside the deduplication window - one the
+//!       code drops without such a predecessor is judged as if it had been delivered.
 use std::{
     collections::HashSet,
     net::{IpAddr, Ipv4Addr},
@@ -601,6 +603,9 @@ fn run_history(h: &Hist, lean: &mut Lean, prop: &str) -> Outcome {
     let mut pend: Vec<KindSpec> = vec![];
     // (issue, time it was ingested by / reported to this path set)
     let mut issue_log: Vec<(KindSpec, u64)> = vec![];
+    // reports the code dropped as "duplicates" although the history holds no earlier report of the same failure
+    // inside the deduplication window: (issue, its timestamp, the latest earlier failure report)
+    let mut lost: Vec<(KindSpec, u64, String)> = vec![];
     let mut exited = false;
 
     for (idx, op) in h.ops.iter().enumerate() {
@@ -761,6 +766,24 @@ fn run_history(h: &Hist, lean: &mut Lean, prop: &str) -> Outcome {
                         if l.vs.pending_issues() > before {
                             pend.push(kind.clone());
                         }
+                        // The property's notion of "the same failure": same issue kind and same target, i.e. same AS and
+                        // the same interface ids (both of them for a connectivity-down report).  Only a report of the same
+                        // failure inside the deduplication window may be dropped as a duplicate - whatever id the code
+                        // derives for it.  A report that is dropped although no such earlier report exists is remembered
+                        // and judged by the steer-away oracle at the worker's next wake-up as if it had been delivered.
+                        if rep.handled && !rep.broadcast {
+                            match same_failure_before(&h.ops[..idx], kind, *ts, h.cfg.dedup_ms * 1_000_000) {
+                                Some(_) => {}
+                                None => {
+                                    let near = h.ops[..idx].iter().rev().find_map(|o| match o {
+                                        OpSpec::Report { kind: k2, ts: t2 } if spec_penalty(k2) > 0.0 => Some(format!("`{}` at {t2}", kind_token(k2))),
+                                        _ => None,
+                                    });
+                                    out.labels.push("report dropped although no report of the same failure precedes it in the window".into());
+                                    lost.push((kind.clone(), *ts, near.unwrap_or_else(|| "none".into())));
+                                }
+                            }
+                        }
                         out.labels.push(format!("report {}{}", kind_token(kind).split(' ').next().unwrap(), if !rep.handled { " unhandled" } else if rep.broadcast { " new" } else { " duplicate" }));
                         (state_line(&l, 0, false), format!("report {} {} {}", kind_token(kind), rep.dedup_id, ts))
                     }
@@ -795,8 +818,14 @@ fn run_history(h: &Hist, lean: &mut Lean, prop: &str) -> Outcome {
                             if !hits_any && (cache_fps(&pre) != cache_fps(&post) || pre_active.as_ref().map(|p| p.1) != post_active.as_ref().map(|p| p.1)) {
                                 spec.push(("C07:unrelated-report".into(), "an issue matching no cached path changed the cache order or the active path".into()));
                             }
+                        }
+                        // what the worker has to act on at this wake-up: the reports it received plus the reports that were
+                        // withheld from it although they are not duplicates in the property's sense (`lost`)
+                        let lost_now: Vec<(KindSpec, u64, String)> = std::mem::take(&mut lost).into_iter().filter(|(k, _, _)| kind_applies(k)).collect();
+                        let judged: Vec<&KindSpec> = ingested.iter().chain(lost_now.iter().map(|(k, _, _)| k)).collect();
+                        if !judged.is_empty() {
                             if let Some((ap, _)) = &pre_active {
-                                let hitting: Vec<&KindSpec> = ingested.iter().filter(|k| kind_matches(k, ap)).collect();
+                                let hitting: Vec<&KindSpec> = judged.iter().copied().filter(|k| kind_matches(k, ap)).collect();
                                 if !hitting.is_empty() {
                                     out.steer_checked += 1;
                                     let thr_f = h.cfg.threshold;
@@ -806,12 +835,34 @@ fn run_history(h: &Hist, lean: &mut Lean, prop: &str) -> Outcome {
                                     let strong_alt = alts.iter().any(|q| matching.iter().all(|m| (sc_of(m) as f64) + (thr_f as f64) < sc_of(q) as f64 - 1e-6));
                                     let still = post_active.as_ref().map(|(p, _)| hitting.iter().any(|k| kind_matches(k, p))).unwrap_or(false);
                                     let active_valid = valid_at(ap.expiration(), now, thr_ns);
+                                    // documented magnitude of the strongest report on the active path; a withheld report counts
+                                    // with the faster documented decay over the time since it was made
+                                    let pen = hitting
+                                        .iter()
+                                        .map(|k| match lost_now.iter().find(|(lk, _, _)| std::ptr::eq(lk, *k)) {
+                                            Some((_, ts, _)) => spec_penalty(k) * (2f64).powf(-(now.saturating_sub(*ts) as f64 / 1e9) / SPEC_ISSUE_HALF_LIFE_S),
+                                            None => spec_penalty(k),
+                                        })
+                                        .fold(0.0, f64::max);
+                                    let only_lost = hitting.iter().all(|k| lost_now.iter().any(|(lk, _, _)| std::ptr::eq(lk, *k)));
                                     if still && strong_alt && active_valid {
                                         spec.push(("C07:steer-away".into(), "the active path crosses the reported interface, a valid cached alternative avoids it and outscores every affected path by more than the threshold, yet the active path still crosses it".into()));
                                     } else if still && !alts.is_empty() {
                                         let act_entry = post_active.as_ref().and_then(|(_, fp)| post.iter().find(|e| e.fingerprint == *fp));
                                         if let Some(ae) = act_entry {
-                                            match classify_non_steer(&hitting, &alts, ae, thr_f, now, &issue_log, &h.ops[..=idx]) {
+                                            match classify_non_steer(pen, hitting.iter().all(|k| matches!(k, KindSpec::Fhu(..))), &alts, ae, thr_f, now, &issue_log, &h.ops[..=idx]) {
+                                                NonSteer::Finding(key, what) if only_lost && key == "C07:steer-away:weak-penalty" => {
+                                                    let (k, ts, near) = lost_now.iter().find(|(lk, _, _)| hitting.iter().any(|k| std::ptr::eq(lk, *k))).unwrap();
+                                                    spec.push((
+                                                        "C07:steer-away:distinct-report-dropped".into(),
+                                                        format!(
+                                                            "failure report `{}` at {ts} hits the active path {} and the history holds no earlier report of the same failure (same kind, same AS, same interface ids) within the deduplication window of {} ms (latest earlier failure report: {near}), yet it was dropped as a duplicate: it never reached the path set, the active path still crosses the interface at now={now} although a valid, unpenalised cached path avoids it ({what})",
+                                                            kind_token(k),
+                                                            fp_exp(ap),
+                                                            h.cfg.dedup_ms
+                                                        ),
+                                                    ));
+                                                }
                                                 NonSteer::Finding(key, what) => spec.push((key, what)),
                                                 NonSteer::ConfigDisablesFailover => out.labels.push("steer-away not required: swap threshold >= every documented penalty".into()),
                                             }
@@ -1018,6 +1069,31 @@ impl<T> TruncFront for Vec<T> {
     }
 }
 
+/// "The same failure" in the sense of the property: the same kind of report (interface down / connectivity down /
+/// first hop unreachable) about the same target - same ISD-AS and the same interface ids, BOTH of them for a
+/// connectivity-down report.  The quoted packet of an SCMP error takes no part.  Returns the timestamp of an
+/// earlier report of the same failure that lies inside the deduplication window before `ts` (a report whose
+/// timestamp is later than `ts` counts as zero time ago, as `duration_since(..).unwrap_or(0)` does); `None` means
+/// the report at `ts` is certainly not a duplicate and must reach the path sets.
+fn same_failure_before(before: &[OpSpec], kind: &KindSpec, ts: u64, dedup_ns: u64) -> Option<u64> {
+    if dedup_ns == 0 {
+        return None;
+    }
+    before.iter().find_map(|o| match o {
+        OpSpec::Report { kind: k2, ts: t2 } if same_failure(k2, kind) && *t2 + dedup_ns > ts => Some(*t2),
+        _ => None,
+    })
+}
+fn same_failure(a: &KindSpec, b: &KindSpec) -> bool {
+    match (a, b) {
+        (KindSpec::Xid(i1, a1, e1, _), KindSpec::Xid(i2, a2, e2, _)) => (i1, a1, e1) == (i2, a2, e2),
+        (KindSpec::Icd(i1, a1, g1, e1, _), KindSpec::Icd(i2, a2, g2, e2, _)) => (i1, a1, g1, e1) == (i2, a2, g2, e2),
+        (KindSpec::Fhu(i1, a1, e1), KindSpec::Fhu(i2, a2, e2)) => (i1, a1, e1) == (i2, a2, e2),
+        (KindSpec::Ptb, KindSpec::Ptb) => true,
+        _ => false,
+    }
+}
+
 /// documented penalty magnitudes (doc comments of `IssueKind::penalty`): link failures 1.0, first-hop send failure 0.4
 fn spec_penalty(k: &KindSpec) -> f64 {
     match k {
@@ -1093,8 +1169,7 @@ fn no_return(a: &ScionPath, cache: &[VerifCacheEntry], now: u64, thr_ns: u64, cf
         if !targeted(kind) || !kind_applies(kind) || !kind_matches(kind, a) {
             continue;
         }
-        let similar_before = ops[..i].iter().any(|o2| matches!(o2, OpSpec::Report { kind: k2, ts: t2 } if kind_token(k2) == kind_token(kind) && *t2 + dedup > *ts));
-        if similar_before {
+        if same_failure_before(&ops[..i], kind, *ts, dedup).is_some() {
             continue;
         }
         let later = || ops[i + 1..].iter().map(op_time);
@@ -1139,10 +1214,10 @@ enum NonSteer {
 }
 
 /// The active path was hit by `hitting`, valid alternatives avoiding the reported interface exist, but the
-/// active path stays. Which input class is this?  `need(q)` = gap the penalty has to open for alternative q.
-fn classify_non_steer(hitting: &[&KindSpec], alts: &[&VerifCacheEntry], active: &VerifCacheEntry, thr: f32, now: u64, issue_log: &[(KindSpec, u64)], ops: &[OpSpec]) -> NonSteer {
+/// active path stays. Which input class is this?  `pen` = documented magnitude of the strongest report on the active
+/// path, `need(q)` = gap the penalty has to open for alternative q.
+fn classify_non_steer(pen: f64, first_hop_only: bool, alts: &[&VerifCacheEntry], active: &VerifCacheEntry, thr: f32, now: u64, issue_log: &[(KindSpec, u64)], ops: &[OpSpec]) -> NonSteer {
     const EPS: f64 = 2e-3;
-    let pen = hitting.iter().map(|k| spec_penalty(k)).fold(0.0, f64::max);
     let base_a = spec_base(&active.path).unwrap_or(0.1);
     // (need without own penalty, residual penalty of the alternative)
     let per_alt: Vec<(f64, f64)> = alts.iter().map(|q| (thr as f64 + base_a - spec_base(&q.path).unwrap_or(0.0), spec_residual(&q.path, now, issue_log, ops))).collect();
@@ -1164,7 +1239,7 @@ fn classify_non_steer(hitting: &[&KindSpec], alts: &[&VerifCacheEntry], active: 
     if clean.iter().all(|(need, _)| *need >= 1.0 - EPS) {
         return NonSteer::ConfigDisablesFailover;
     }
-    if pen <= 0.4 + EPS {
+    if first_hop_only {
         return NonSteer::Finding(
             "C07:steer-away:first-hop-penalty-below-threshold".into(),
             format!("a first-hop send failure (penalty 0.4) was reported on the active path and an unpenalised valid alternative avoids the interface, but the penalty does not exceed path_swap_score_threshold {thr}: traffic stays on the unreachable first hop"),
@@ -1549,6 +1624,118 @@ fn gen_rereport(rng: &mut Rng) -> Hist {
     Hist { kind: "rereport".into(), cfg, pol: PolSpec::None, more: vec![], routes, t0, ops }
 }
 
+/// the route whose path is the active one after the operations of `h` (dry run on a fresh real instance)
+fn dry_active_route(h: &Hist) -> Option<usize> {
+    let rt = tokio::runtime::Builder::new_current_thread().enable_all().build().unwrap();
+    let _g = rt.enter();
+    let script = Arc::new(Mutex::new(Script { next: None, calls: 0, bad_pair: false }));
+    let pols = build_strategy(h).map(|s| s.policies).unwrap_or_default();
+    let mut vs = catch(|| VerifPathSet::new(src_ia(), dst_ia(), h.cfg.to_verif(), ScriptFetcher(script.clone()), pols, st(h.t0))).ok()?;
+    for op in &h.ops {
+        if let OpSpec::Maintain { now, resp: RespSpec::Ok(ps) } = op {
+            script.lock().unwrap().next = Some(Ok(ps.iter().map(|p| build_path(&h.routes[p.route], p)).collect()));
+            catch(|| rt.block_on(vs.step_maintain(st(*now)))).ok()?;
+        }
+    }
+    let (_, fp) = vs.active()?;
+    let fp = fp_u64(&fp);
+    (0..h.routes.len()).find(|i| path_fp(&build_path(&h.routes[*i], &PSpec { route: *i, expiry: 4_000_000, meta: 0 })) == fp)
+}
+
+/// a failure report that resembles `k` without being a report of the same failure: it differs in exactly one of
+/// ingress interface, egress interface, AS, ISD, kind of report (the label says which)
+fn similar_report(rng: &mut Rng, k: &KindSpec) -> (KindSpec, &'static str) {
+    let other = |rng: &mut Rng, x: u16| -> u16 {
+        let y = rng.range(1, 7) as u16;
+        if y == x { x + 1 } else { y }
+    };
+    let salt = rng.below(2) as u8;
+    match k.clone() {
+        KindSpec::Icd(isd, asn, g, e, _) => match rng.below(8) {
+            0 | 1 | 2 => (KindSpec::Icd(isd, asn, other(rng, g), e, salt), "other ingress"),
+            3 => (KindSpec::Icd(isd, asn, g, other(rng, e), salt), "other egress"),
+            4 => (KindSpec::Xid(isd, asn, e, salt), "other kind, same egress"),
+            5 => (KindSpec::Xid(isd, asn, g, salt), "other kind, ingress as egress"),
+            6 => (KindSpec::Icd(isd, asn + 1, g, e, salt), "other AS"),
+            _ => (KindSpec::Icd(isd, asn, e, g, salt), "interfaces swapped"),
+        },
+        KindSpec::Xid(isd, asn, e, _) if asn == SRC_ASN => match rng.below(4) {
+            0 | 1 => (KindSpec::Fhu(isd, asn, e), "other kind, same interface"),
+            2 => (KindSpec::Xid(isd, asn, other(rng, e), salt), "other egress"),
+            _ => (KindSpec::Xid(3 - isd, asn, e, salt), "other ISD"),
+        },
+        KindSpec::Xid(isd, asn, e, _) => match rng.below(6) {
+            0 | 1 | 2 => (KindSpec::Icd(isd, asn, rng.range(1, 7) as u16, e, salt), "other kind, same egress"),
+            3 => (KindSpec::Xid(isd, asn, other(rng, e), salt), "other egress"),
+            4 => (KindSpec::Xid(isd, asn + 1, e, salt), "other AS"),
+            _ => (KindSpec::Xid(3 - isd, asn, e, salt), "other ISD"),
+        },
+        KindSpec::Fhu(isd, asn, e) => match rng.below(4) {
+            0 | 1 => (KindSpec::Xid(isd, asn, e, salt), "other kind, same interface"),
+            2 => (KindSpec::Fhu(isd, asn, other(rng, e)), "other egress"),
+            _ => (KindSpec::Fhu(isd, asn + 1, e), "other AS"),
+        },
+        KindSpec::Ptb => (KindSpec::Ptb, "same"),
+    }
+}
+
+/// C07 stream "burst of similar reports": the pair is in use; inside (or just outside) the deduplication window two
+/// or three failure reports arrive that resemble each other - same AS and egress but another ingress, same
+/// interface pair but another kind of report, interface-down vs connectivity-down on one interface, first-hop
+/// send failure vs interface-down on the first hop, another AS with the same interface ids - and only one of them
+/// is about an interface of the path in use.  Each one that is not a repetition of the same failure has to act.
+fn gen_similar_burst(rng: &mut Rng) -> Hist {
+    let routes = gen_routes(rng);
+    let mut cfg = base_cfg();
+    // (a refetch is due 3 s after the first one; the histories below decide whether the worker gets to it)
+    cfg.refetch_interval_ms = 3_000;
+    cfg.threshold = *rng.pick(&[0.5f32, 0.5, 0.3, 0.1]);
+    cfg.dedup_ms = *rng.pick(&[10_000u64, 10_000, 10_000, 60_000, 0]);
+    cfg.max_cached = *rng.pick(&[5usize, 50, 50]);
+    let t0 = 1_000_000 * NS;
+    let far = 1_000_000 + 20_000;
+    let mut answer: Vec<PSpec> = (0..routes.len()).map(|i| PSpec { route: i, expiry: far, meta: 0 }).collect();
+    rng.shuffle(&mut answer);
+    let mut h = Hist { kind: "similar-burst".into(), cfg, pol: PolSpec::None, more: vec![], routes, t0, ops: vec![OpSpec::Maintain { now: t0, resp: RespSpec::Ok(answer.clone()) }, OpSpec::Send { now: t0 + NS }] };
+    // the report about the path in use
+    let a = dry_active_route(&h).unwrap_or(0);
+    let ra = h.routes[a].clone();
+    let hit = if ra.transit.is_empty() || rng.chance(1, 5) {
+        if rng.chance(1, 3) { KindSpec::Fhu(1, SRC_ASN, ra.e0) } else { KindSpec::Xid(1, SRC_ASN, ra.e0, 0) }
+    } else {
+        let (asn, i, o) = ra.transit[rng.below(ra.transit.len() as u64) as usize];
+        if rng.chance(2, 3) { KindSpec::Icd(1, asn as u64, i, o, rng.below(2) as u8) } else { KindSpec::Xid(1, asn as u64, o, rng.below(2) as u8) }
+    };
+    let (sim, _) = similar_report(rng, &hit);
+    let mut burst = vec![sim, hit.clone()];
+    if rng.chance(1, 4) {
+        burst.swap(0, 1);
+    }
+    if rng.chance(1, 3) {
+        let (third, _) = similar_report(rng, &hit);
+        burst.insert(rng.below(3) as usize, third);
+    }
+    let mut cur = t0 + 2 * NS;
+    for (i, k) in burst.into_iter().enumerate() {
+        if i > 0 {
+            cur += *rng.pick(&[0u64, 1, NS, 2 * NS, 2 * NS, 5 * NS, 9_999_999_999, 10 * NS, 11 * NS]);
+        }
+        h.ops.push(OpSpec::Report { kind: k, ts: cur });
+        if rng.chance(1, 3) {
+            h.ops.push(OpSpec::Deliver { now: cur });
+        }
+    }
+    h.ops.push(OpSpec::Deliver { now: cur });
+    h.ops.push(OpSpec::Send { now: cur });
+    if rng.chance(1, 2) {
+        // the pair is looked up again while the reports are fresh: every route comes back
+        cur += *rng.pick(&[1u64, 5, 12]) * NS;
+        h.ops.push(OpSpec::Maintain { now: cur, resp: RespSpec::Ok(answer) });
+        h.ops.push(OpSpec::Send { now: cur + NS });
+    }
+    h
+}
+
 // ---- deterministic probes (each known finding / fixed defect is replayed on every run) -------------
 
 fn base_cfg() -> CfgSpec {
@@ -1836,6 +2023,59 @@ fn probes(prop: &str) -> Vec<Hist> {
                     ],
                 });
             }
+        }
+        // bursts of similar reports inside the deduplication window: the first report resembles the second one but is
+        // about another failure (it matches no path in use); the second one, 2 s later, is about the transit hop
+        // 1-301 1>4 (or the first hop 1-110#1) of the active path and has to act like a first report
+        let mut rs3 = two_routes();
+        rs3.push(Route { e0: 2, transit: vec![(0x302, 2, 5), (0x304, 2, 4)], last_in: 2 });
+        let icd = KindSpec::Icd(1, 0x301, 1, 4, 0);
+        for (what, k1, k2) in [
+            ("other-ingress", KindSpec::Icd(1, 0x301, 3, 4, 0), icd.clone()),
+            ("other-ingress-same-quote", KindSpec::Icd(1, 0x301, 3, 4, 1), KindSpec::Icd(1, 0x301, 1, 4, 1)),
+            ("other-egress", KindSpec::Icd(1, 0x301, 1, 6, 0), icd.clone()),
+            ("other-as", KindSpec::Icd(1, 0x305, 1, 4, 0), icd.clone()),
+            ("swapped", KindSpec::Icd(1, 0x301, 4, 1, 0), icd.clone()),
+            ("connectivity-then-interface-down", KindSpec::Icd(1, 0x301, 3, 4, 0), KindSpec::Xid(1, 0x301, 4, 0)),
+            ("interface-then-connectivity-down", KindSpec::Xid(1, 0x301, 1, 0), icd.clone()),
+            ("interface-down-other-egress", KindSpec::Xid(1, 0x301, 6, 0), KindSpec::Xid(1, 0x301, 4, 0)),
+            ("interface-down-other-as", KindSpec::Xid(1, 0x302, 4, 0), KindSpec::Xid(1, 0x301, 4, 0)),
+            ("first-hop-other-interface", KindSpec::Xid(1, SRC_ASN, 3, 0), KindSpec::Xid(1, SRC_ASN, 1, 0)),
+            ("send-failure-then-interface-down", KindSpec::Fhu(1, SRC_ASN, 1), KindSpec::Xid(1, SRC_ASN, 1, 0)),
+        ] {
+            // the pair is in use: the very next send after the second report must avoid the interface
+            v.push(Hist {
+                kind: format!("probe-similar-reports-{what}"),
+                cfg: base_cfg(),
+                pol: PolSpec::None,
+                more: vec![],
+                routes: two_routes(),
+                t0,
+                ops: vec![
+                    OpSpec::Maintain { now: s(0), resp: RespSpec::Ok(vec![PSpec { route: 0, expiry: far, meta: 0 }, PSpec { route: 1, expiry: far, meta: 0 }]) },
+                    OpSpec::Send { now: s(1) },
+                    OpSpec::Report { kind: k1.clone(), ts: s(2) },
+                    OpSpec::Report { kind: k2.clone(), ts: s(4) },
+                    OpSpec::Deliver { now: s(4) },
+                    OpSpec::Send { now: s(4) },
+                ],
+            });
+            // the pair is first looked up after the two reports: the second report must have been kept for the paths
+            // fetched later (route 0 over the failed interface is one hop field shorter than the clean route 3)
+            v.push(Hist {
+                kind: format!("probe-similar-reports-{what}-then-first-fetch"),
+                cfg: base_cfg(),
+                pol: PolSpec::None,
+                more: vec![],
+                routes: rs3.clone(),
+                t0,
+                ops: vec![
+                    OpSpec::Report { kind: k1, ts: s(0) },
+                    OpSpec::Report { kind: k2, ts: s(2) },
+                    OpSpec::Maintain { now: s(5), resp: RespSpec::Ok(vec![PSpec { route: 0, expiry: far, meta: 0 }, PSpec { route: 3, expiry: far, meta: 0 }]) },
+                    OpSpec::Send { now: s(6) },
+                ],
+            });
         }
         // the same through the socket: UdpScionSocket::send_to -> report_send_error -> worker -> next send_to
         v.push(wiring_hist("wiring-default-config", default_cfg(), two_routes(), vec![0, 1]));
@@ -2212,6 +2452,11 @@ fn main() {
             let mut rr = rng.fork();
             for _ in 0..args.scale(120, 2000) {
                 hists.push(gen_rereport(&mut rr));
+            }
+            // (forked from the re-report stream's generator: the streams below keep their sequences)
+            let mut sb = rr.fork();
+            for _ in 0..args.scale(150, 2500) {
+                hists.push(gen_similar_burst(&mut sb));
             }
             let mut wr = rng.fork();
             for _ in 0..args.scale(10, 60) {
